@@ -444,7 +444,8 @@ impl<'a> Exec<'a> {
                 // parse_headers(h) agrees with the header part (default options only)
                 if spec.cfg & (1 | 2 | 16 | 32 | 64) == 0 {
                     if let Some(hs) = mout.hdr_start {
-                        if hs <= data.len() && a.version.is_some() {
+                        // (the reference model got past the start line, so the header part is well defined)
+                        if hs <= data.len() {
                             let hsp = CallSpec { kind: Kind::Hdrs, entry: 0, ..base };
                             let b = self.raw(&hsp, &data[hs..], place, future);
                             self.stats.evaluations[16] += 1;
